@@ -37,6 +37,22 @@ CHECKS = {
  'C18': dict(cat='model_checking', tech='trace validation of symbol-production sessions under forced collection schedules against SchemeCEK (symbols are interned names) with TLC',
    text='In the CEK machine a symbol is its interned name (symbol table in the machine state), eq? on symbols is identity of the interned name, and the two conversions are the identity on names. Sessions produce two symbols by every pair of routes with names from all of Unicode, keep or drop the first, within one form or across forms, under forced collections at every k-th instruction and pseudo-random boundaries; TLC validates eq?, memq and the string round trips observed inside the language.',
    note='Macro-output route not generated yet. The intern table itself is checked structurally by the C03/C12 snapshot check.', ref='5 C18'),
+
+ 'C08': dict(cat='model_checking', tech='trace validation of recorded arithmetic operation records against NumTower/BigNum (arbitrary-precision arithmetic specified in TLA+) with TLC',
+   text='BigNum.tla specifies integers as base-10^4 limb sequences (self-checked by TLC against native integers on 416k pairs) and NumTower.tla exact rationals and IEEE doubles decoded to exact values. The harness draws operands from the boundary palette in every internal representation (injected Number variants and Scheme-level routes), evaluates + - * / abs floor ceiling truncate numerator denominator expt quotient remainder modulo in the real VM, and TLC judges every record: exact results must equal the true value, inexact ones are allowed only when the exact result is unrepresentable and within 2^-50 relative error, representations must agree, panics are rejected.',
+   note='Sampled with boundary bias (7.5k quick / 280k thorough evaluations). Open known findings: the deliberate float fallback of mixed rational arithmetic (109 structural keys + 47 unobserved siblings).', ref='5 C08'),
+ 'C09': dict(cat='model_checking', tech='trace validation of recorded comparison records against NumTower/BigNum with TLC',
+   text='Comparison records (< = > <= >=, binary and variadic, min max zero? positive? negative?) over the C08 palette extended with doubles (near 2^53 and 2^63, +-0.0, subnormals, infinities, neighbours of exact values) in every representation; TLC decides each truth value from the exact mathematical values, so trichotomy, consistency, transitivity and the variadic rule are consequences checked per record.',
+   note='NaN excluded. min/max judged by value only.', ref='5 C09'),
+ 'C12': dict(cat='model_checking', tech='exhaustive TLC model check of the collector model MarwoodGC + trace validation of heap snapshots and capacity events against GCPreds',
+   text='MarwoodGC.tla (cells Free/Allocated/Used, free list, intern table, roots, 1.5x growth policy, stop-the-world mark with worklist and sweep) is model checked exhaustively for small heaps: Safety, Exactness after sweep, FreeListOK, InternOK, MarksReset, marking terminates. The same predicates (GCPreds.tla) validate snapshots taken before marking and after sweeping at natural and forced collections of the real VM: exactly the allocated cells reachable from the roots survive, survivors unchanged, free list = free cells without duplicates, intern table = symbol cells. Garbage loops (10 allocation kinds x live sizes 0/10/1000 x n and 10n iterations) must follow the growth policy, end with capacity(10n) = capacity(n) and stay under the bound derived from the live data.',
+   note='The projection of raw cells to out-edges and roots (harness/src/snap.rs) is trusted; it is written from the meaning of the cell kinds, not from heap.rs. The abstract model is checked for heaps of at most 3 cells (quick) / with liveness (thorough).', ref='5 C12'),
+ 'C16': dict(cat='model_checking', tech='trace validation of number<->string records against NumTower (digit strings and rounding intervals specified in TLA+) with TLC',
+   text='Records (z, radix, number->string, string->number of it, the prefixed source literal) over the C08/C09 palettes, random fixnums, bignums, rationals at radix 2/8/10/16 and finite doubles by bit pattern at radix 10. TLC checks the read-back equals z with the same exactness, the literal denotes the same value, and - independently of the reader - that the printed digits denote z (Horner value for exact numbers, rounding interval for doubles).',
+   note='Doubles at radix 10 only.', ref='5 C16'),
+ 'C20': dict(cat='model_checking', tech='exhaustive TLC model check of Highlight.tla + replay of all TLC-generated (text, cursor) cases into the real highlighter + trace validation of Unicode cases',
+   text='Highlight.tla specifies tokenisation over the 11-symbol alphabet, bracket tokens, the properly nested partner and the required output (unchanged, or one escape pair around the partner) plus the one-directional highlight_check requirement. TLC checks spec invariants (partner is an involution, pairs never cross) for all texts to length 5/6 and emits every (text, byte cursor) case to length 4 (quick) / 6 (thorough) with its required outcome; the harness calls both real methods under catch_unwind and compares exactly. Longer texts by simulation; seeded Unicode texts are validated I->S for the weak clauses.',
+   note='The statement asks for length 8 exhaustively (11^8 texts): out of reach; the bound reached is in the evidence. Where the statement is ambiguous (cursor on a non-bracket token directly after a bracket) both readings are accepted.', ref='5 C20'),
 }
 NOT_YET = {}
 NA = {
